@@ -18,7 +18,9 @@ from typing import Any, Dict, List, Optional, Tuple
 
 from ..absint import AClass, AExt, AObj, ARaise, Interp, Oracle, TOP, enumerate_outcomes
 from ..engine import CHART_RUN, Ctx
-from ..program import AnalysisError, ClassInfo
+import ast
+
+from ..program import AnalysisError, ClassInfo, FuncEnv
 from ..report import Collector
 
 
@@ -314,3 +316,78 @@ def rule_dispatch_worlds(ctx: Ctx, out: Collector) -> None:
                         + '; '.join(sorted(set(problems))[:3]))
     if n == 0:
         raise AnalysisError('event dispatcher not found (EV-3 anchor vanished)')
+
+
+def rule_managers_isolated_worlds(ctx: Ctx, out: Collector) -> None:
+    """EV-6: a raising event manager must not change what the other (well-behaved) managers observe, nor send the emitting code
+    down its error path.  Decided by interpreting emit_<event> of the context for two managers with the hook, the first of which
+    raises: the second still gets the event and the emit returns."""
+    p = ctx.p
+    proto = next((ci for ci in p.classes.values() if ci.name == 'EventManagerLike'), None)
+    if proto is None:
+        raise AnalysisError('EventManagerLike not found (EV-6 anchor vanished)')
+    hooks = sorted(n for n in proto.methods if n.startswith('on_'))
+    ctx_classes = [ci for ci in p.classes.values()
+                   if all(p.lookup_method(ci, 'emit_' + h) is not None for h in hooks) and p.lookup_method(ci, '__init__') is not None
+                   and not ci.name.endswith('Like')]
+    if not ctx_classes or not hooks:
+        raise AnalysisError('no context class with emit_<event> methods found (EV-6 anchor vanished)')
+    gi = [u for u in p.functions.values() if u.parent is None and u.cls is None and u.name == 'get_instance']
+    chart_cls = p.func(CHART_RUN).cls
+    seen = set()
+    for cc in ctx_classes:
+        problems: List[str] = []
+        dispatcher = None
+        for hook in hooks:
+            em = p.lookup_method(cc, 'emit_' + hook)
+            env = FuncEnv.of(p, em)
+            for c in env.own_nodes():
+                if isinstance(c, ast.Call):
+                    for t in env.resolve_call(c):
+                        if t[0] == 'func' and t[1].cls is not None and dispatcher is None:
+                            dispatcher = t[1]
+            params = [x.arg for x in proto.methods[hook].node.args.args if x.arg not in ('self', 'ctx')]
+
+            def run(oracle: Oracle, hook=hook, params=params, em=em, cc=cc):
+                log: List[int] = []
+                classes = [AObj(('ext', 'UserClass'), {}, tag=f'event-manager-class-{i}') for i in range(2)]
+
+                def raising(a, k):
+                    log.append(0)
+                    raise ARaise('ValueError (raised by the first event manager)')
+                ext = {'world.hook.0': raising, 'world.hook.1': lambda a, k: log.append(1)}
+                managers = {id(c): AObj(('ext', 'EventManager'), {h: AExt(f'world.hook.{i}') for h in hooks}, tag=f'event-manager-{i}')
+                            for i, c in enumerate(classes)}
+                store = AObj(('ext', 'ArtifactStore'), {}, tag='artifact-store')
+                interp = Interp(p, oracle, stubs={u.fid: (lambda it, a, k, s_: managers.get(id(a[0] if a else k.get('cls')), store)) for u in gi},
+                                ext_stubs=ext)
+                chart = AObj(chart_cls, {'model_name': 'model', 'entrypoint': None, 'artifact_store': None,
+                                         'event_managers': list(classes)}, tag='chart')
+                context = interp.construct(AClass(cc), [], {'chart': chart, 'pipeline_id': 'pid', 'input_kwargs': {}, 'meta': {}})
+                payload = {pn: AObj(('ext', 'Payload'), {}, tag=f'payload:{pn}') for pn in params}
+                try:
+                    interp.call_unit(em, [], dict(payload), context)
+                except ARaise as ex:
+                    return tuple(log), f'raises {ex.what}'
+                return tuple(log), 'returns'
+            for o in enumerate_outcomes(run):
+                if o[0] != 'value':
+                    problems.append(f'emit_{hook}: {o[1]}')
+                    continue
+                log, how = o[1]
+                if log != (0, 1) or how != 'returns':
+                    problems.append(f'emit_{hook}: delivered to managers {list(log)}, the emit {how}')
+        if dispatcher is None:
+            raise AnalysisError('event dispatcher not found (EV-6 anchor vanished)')
+        cons = f'{dispatcher.module.name}::{dispatcher.qualname}::a raising event manager does not disturb the other managers'
+        if cons in seen:
+            continue
+        seen.add(cons)
+        if not problems:
+            out.ok('EV-6', cons, p.loc(dispatcher, dispatcher.node), f'{len(hooks)} events: the second manager gets the event although the first raises; the emit returns')
+        else:
+            out.bad('EV-6', cons, p.loc(dispatcher, dispatcher.node),
+                    'the dispatcher awaits the callbacks of all managers unprotected: when one manager raises, the '
+                    'managers after it miss the event, and the emitting code takes its error path, so a well-behaved manager sees zero or '
+                    'two on_pipeline_complete events (neither carrying the object run returns) or a duplicated on_node_complete ('
+                    + '; '.join(problems[:2]) + ')', props={'C14'})
